@@ -209,6 +209,7 @@ struct Transmission {
   bool        in_timer = false; // sent while the application was processing a timer expiry
   bool        in_closure = false;
   int         src_variant = 0;     // local address variant of the socket it was sent from
+  int         rot_draws = 0, rot_last = -1; // number of rotation draws the library had made when this went out, and the latest value
   int         sock_serial = -1; // which socket object (index into World::socks) it was sent on; descriptor numbers may be reused
   long        seq = 0;
   bool        batched = false;  // TCP frame flushed together with earlier frames in one send(): queued at an unknown earlier moment
@@ -231,6 +232,7 @@ struct VSock {
   Bytes              outstream;
   size_t             outparsed = 0;
   int                ntx = 0, nclose = 0;
+  int                send_calls = 0; // every sendto() the library attempted on it, whatever the outcome
   int                created_seq = 0;
   int64_t            out_blocked = 0;
   int                local_variant = 0; // local address the socket was bound to at connect() time
@@ -296,6 +298,7 @@ struct World {
   std::vector<std::string>            obs; // observation log
   std::vector<Viol>                   viols;
   int         fault[FS_NSITES] = { 0 };
+  int         rot_draws = 0, rot_last = -1;
   int         fault_skip[FS_NSITES] = { 0 }; // calls of that site that still succeed before the armed fault fires
   int         next_fd = 10;
   int         src_variant = 0;
